@@ -284,3 +284,43 @@ def run_two_storages(seed):
     finally:
         shutil.rmtree(scratch, ignore_errors=True)
     return problems
+
+
+def run_ids_order(seed):
+    """C07: the digest of what a dataset-wide layer derives from a Merge (the ids kept by Filter, the group ids of GroupBy) does not
+    depend on the ORDER in which a merged source happens to list its ids (Merge.ids is the sorted union; the values of all fields
+    are the same): a run whose source enumerates the same entries in another order finds what the previous run wrote."""
+    from .pipeline import Builder
+    from .sym import SymWorld
+    rng = random.Random(seed)
+    ids_a = rng.sample([f'i{k}' for k in range(6)], rng.randint(2, 4))
+    ids_b = [f'j{k}' for k in range(rng.randint(1, 3))]
+    tabs = lambda cls, ids: {'x': {'args': ['i'], 'f': f'{cls}.x'},
+                             'kk': {'args': ['i'], 'f': f'{cls}.kk', 'table': [[[i], 'gh'[n % 2]] for n, i in enumerate(sorted(ids))]}}
+    problems = []
+    world = SymWorld()
+    recs = []
+    for perm in range(3):
+        order = list(ids_a)
+        if perm:
+            rng.shuffle(order)
+        b = Builder(world)
+        b.ids_by_value = False          # the ids function is ONE function object whatever it returns
+        a = {'k': 'source', 'cls': 'OA', 'ids': order, 'fields': tabs('OA', ids_a), 'params': {}, 'cargs': {}, 'defaults': {}}
+        bb = {'k': 'source', 'cls': 'OB', 'ids': ids_b, 'fields': tabs('OB', ids_b), 'params': {}, 'cargs': {}, 'defaults': {}}
+        pred = {'k': 'filter', 'f': 'opred', 'args': ['kk'], 'table': [[['g'], True], [['h'], rng.random() < 0.5]]}
+        world.tables['opred'] = {('g',): True, ('h',): False}
+        tail = rng.choice([[pred], [{'k': 'groupby', 'by': 'kk'}], [pred, {'k': 'groupby', 'by': 'kk'}]]) if perm == 0 else tail
+        try:
+            p = b.layer({'k': 'chain', 'flavour': 'chain', 'layers': [{'k': 'merge', 'parts': [a, bb]}] + tail})
+            f = p._compile('ids')
+            recs.append((order, digest_of(f, []), canon(val_to_json(f(), world))))
+        except Exception as e:
+            recs.append((order, 'ERR ' + exc_name(e), None))
+    for order, dg, val in recs[1:]:
+        if val == recs[0][2] and dg != recs[0][1]:
+            problems.append({'orders': [recs[0][0], order], 'tail': tail,
+                             'msg': f'Merge(A, B) >> {[t["k"] for t in tail]}: the same entries listed by A as {order} instead of {recs[0][0]} give '
+                                    f'the same `ids` {str(val)[:60]} under another digest: what one run stored the next does not find'})
+            break
+    return problems
